@@ -275,6 +275,19 @@ def op_body(npts, forced, iota, which, start):
     if which == 'flux':
         f.setLayout('flux_surface')
         o['flux'].gridStep(f)
+    elif which == 'flux_tuned':
+        # time step tuned so that one velocity travels a whole number of cells at the mid radius: the integer part of the
+        # displacement then differs between the inner and the outer radii (b_z depends on r)
+        from pygyro.advection.advection import FluxSurfaceAdvection
+        c = o['constants']
+        eta = f.eta_grid
+        dz = eta[2][2] - eta[2][1]
+        rmid = 0.5 * (eta[0][0] + eta[0][-1])
+        bz = 1.0 / np.sqrt(1.0 + (rmid * c.iotaVal / c.R0) ** 2)
+        dt = 2.0 * dz / (abs(eta[3][1]) * bz)
+        f.setLayout('flux_surface')
+        adv = FluxSurfaceAdvection(eta, f.get2DSpline(), f.getLayout('flux_surface'), dt, c)
+        adv.gridStep(f)
     elif which == 'vpar':
         f.setLayout('v_parallel')
         phi.setLayout('v_parallel_1d')
@@ -318,7 +331,7 @@ def part_operators(chk, stats):
     npts = (6, 8, 8, 9)
     grids = chk.n([(2, 1), (1, 2), (2, 2), (3, 2)], [(2, 1), (1, 2), (2, 2), (3, 2), (3, 1), (1, 3), (2, 3), (2, 4), (6, 1), (3, 3)])
     for which, start, iotas in (('init', 'flux_surface', [0.8]), ('init', 'poloidal', [0.8]), ('init', 'v_parallel', [0.8]),
-                                ('flux', 'flux_surface', [0.0, 0.8]), ('vpar', 'v_parallel', [0.8]), ('pol', 'poloidal', [0.8]), ('qn', 'v_parallel', [0.8])):
+                                ('flux', 'flux_surface', [0.0, 0.8]), ('flux_tuned', 'flux_surface', [0.8]), ('vpar', 'v_parallel', [0.8]), ('pol', 'poloidal', [0.8]), ('qn', 'v_parallel', [0.8])):
         for iota in iotas:
             ref = lu.run_ranks(1, op_body, npts, (1, 1), iota, which, start)
             if not ref.ok:
